@@ -2,7 +2,8 @@
    CommandExecutor; a step is "set the clock to t" or "execute command c", and carries what the
    implementation answered plus the visible keyspace the harness probed right after the step
    (TYPE + value dump + PTTL for every key of the alphabet; [None] = textually identical to the
-   previous snapshot).  The model must reproduce every reply and every snapshot.
+   previous snapshot).  The model (dialect AsBuilt = the reference with the known, pinned deviations)
+   must reproduce every reply and every snapshot.
    Unordered replies (SMEMBERS, HGETALL, HKEYS, HVALS, KEYS) are sorted on both sides. *)
 From stdpp Require Import gmap.
 From Coq Require Export ZArith NArith String.
@@ -90,7 +91,7 @@ Fixpoint steps_ok (s : gmap (list N) (value * option N)) (now : N)
       let s' := advance s t in
       snap_opt_ok s' t last o && steps_ok s' t (match o with Some sn => sn | None => last end) r
   | SC c rep o :: r =>
-      let '(s', mr) := exec s now c in
+      let '(s', mr) := exec AsBuilt s now c in
       reply_eqb (canon c mr) (canon c rep) && snap_opt_ok s' now last o
       && steps_ok s' now (match o with Some sn => sn | None => last end) r
   end.
@@ -110,7 +111,7 @@ Fixpoint first_bad (s : gmap (list N) (value * option N)) (now : N)
       then first_bad s' t (match o with Some sn => sn | None => last end) r (i + 1)
       else Some (i, None, false)
   | SC c rep o :: r =>
-      let '(s', mr) := exec s now c in
+      let '(s', mr) := exec AsBuilt s now c in
       if reply_eqb (canon c mr) (canon c rep) && snap_opt_ok s' now last o
       then first_bad s' now (match o with Some sn => sn | None => last end) r (i + 1)
       else Some (i, Some (canon c mr), snap_opt_ok s' now last o)
